@@ -17,6 +17,7 @@ independent of the limb type.  The model runs on limb lists (`Cnl.Wide`), the or
     fromint <ty> <T> <v>                 => <ty>:<hex>
     lim <max|lowest|min|digits> <ty>     => <ty>:<hex> | <digits>
     dec <ty> <a>                         => decimal text (via operator<<)
+    chars <ty> <a>                       => decimal text (via cnl::to_chars_static; values within numeric_limits)
 -/
 namespace Cnl.Drv
 open Cnl Cnl.Wide
@@ -140,8 +141,18 @@ def checkC10 (toks : List String) (res : String) : Option Verdict :=
     let ty ← parseTy tys; let (f, _) ← wdFmt ty
     let pa ← parseHex a
     let m := wrDec f (ofNat f.w f.n pa)
+    let x := patToInt f.N f.signed pa
+    let want := WideSpec.decimal x
+    -- the first-principles `decimalText` of the theorems must agree with Lean's own conversion
+    some { model := m, spec := some (want == res && WideSpec.decimalText x == want), branch := "dec" }
+  | ["chars", tys, a] => do
+    let ty ← parseTy tys; let (f, _) ← wdFmt ty
+    let pa ← parseHex a
+    let m := match toChars f (ofNat f.w f.n pa) with
+      | some s => s
+      | none => "TIMEOUT"
     let want := WideSpec.decimal (patToInt f.N f.signed pa)
-    some { model := m, spec := some (want == res), branch := "dec" }
+    some { model := m, spec := some (want == res), branch := "chars" }
   | _ => none
 
 end Cnl.Drv
